@@ -45,8 +45,14 @@
 (***************************************************************************)
 EXTENDS Gateway, EzspCmd, EzspCodec
 
+(* Latitude EzspCmd.FrameAlts gives for frames that hit a registration which is not the pending call's own: a reply under  *)
+(* a stale registration (its caller timed out, failed or was cancelled) is dropped or handed to the callbacks once; a frame *)
+(* with a foreign ID under the pending number is dropped or handed to the callbacks, and the registration survives or not.  *)
+(* The code as it stands drops both and forgets the registration (CodeLat); trace validation accepts every member.          *)
+CodeLat == [cb |-> FALSE, keep |-> FALSE]
+Lats == [cb : BOOLEAN, keep : BOOLEAN]
 SInit == [g |-> GInit, p |-> PInit, run |-> FALSE, open |-> TRUE, reg |-> FALSE,
-          hv |-> 4, lay |-> Layout(4), req |-> 0, ek |-> 0, v1 |-> {}, v2 |-> {}]
+          hv |-> 4, lay |-> Layout(4), req |-> 0, ek |-> 0, v1 |-> {}, v2 |-> {}, lat |-> CodeLat]
 SR(s, out) == [s |-> s, out |-> out]
 
 CDone(c, res, val) == [o |-> "cdone", c |-> c, res |-> res, val |-> val]
@@ -70,7 +76,7 @@ LinkRes(r) == IF r = "ok" THEN "ok" ELSE "linkfail"
 (* future completed; the slot is handed on when the task resumes ("grant"  *)
 (* signal, a later loop iteration).                                        *)
 (***************************************************************************)
-FrameSync(p, f) ==
+FrameSync(p, f, lat) ==
     IF f.seq \in DOMAIN p.aw
     THEN LET e  == p.aw[f.seq]
              p1 == [p EXCEPT !.aw = AwDel(p.aw, f.seq)]
@@ -79,18 +85,20 @@ FrameSync(p, f) ==
                  THEN PR([p1 EXCEPT !.hold = NoHold], <<DoneR(e.c, "invalid", 0), Sig("grant")>>)
                  ELSE IF f.cmd = e.cmd
                  THEN PR([p1 EXCEPT !.hold = NoHold], <<DoneR(e.c, "ok", f.val), Sig("grant")>>)
-                 ELSE PR(p1, <<>>)        \* foreign ID under a pending number: the assertion fails inside __call__,
-                                          \* frame_received swallows it; the registration is gone
+                 ELSE PR(IF lat.keep THEN p ELSE p1, IF lat.cb THEN <<Cb(f.cmd, f.val)>> ELSE <<>>)
+                                          \* foreign ID under a pending number: (as the code stands) the assertion fails
+                                          \* inside __call__, frame_received swallows it; the registration is gone
             ELSE IF e.live /\ p.hold.c = e.c /\ p.hold.ph = "sending"
             THEN IF f.cmd = "invalidCommand" THEN PR([p1 EXCEPT !.hold.early = "invalid"], <<>>)
                  ELSE IF f.cmd = e.cmd THEN PR([p1 EXCEPT !.hold.early = "ok", !.hold.ev = f.val], <<>>)
-                 ELSE PR(p1, <<>>)
-            ELSE PR(p1, <<>>)             \* stale registration: its future is already done, the frame is dropped
+                 ELSE PR(IF lat.keep THEN p ELSE p1, IF lat.cb THEN <<Cb(f.cmd, f.val)>> ELSE <<>>)
+            ELSE PR(p1, IF lat.cb THEN <<Cb(f.cmd, f.val)>> ELSE <<>>)
+                                          \* stale registration: its future is already done; (as the code stands) dropped
     ELSE PR(p, <<Cb(f.cmd, f.val)>>)      \* answers no registered request: to the callbacks, once
 
 (* FrameSync is one of the behaviours EzspCmd allows (checked by StackMC as an invariant over reachable states) *)
 SyncRefines(p, f, now) ==
-    LET r == FrameSync(p, f)
+    LET r == FrameSync(p, f, CodeLat)
         dn == SelectSeq(r.out, LAMBDA o : o.o = "done")
         cb == SelectSeq(r.out, LAMBDA o : o.o = "cb")
     IN \E alt \in FrameAlts(p, f, AllHang, now) :
@@ -152,7 +160,7 @@ Pump(s, todo, out, now) ==
         [] x.o = "grant" ->
              LET r == Grant(s.p, <<>>, AllHang, now) IN Pump([s EXCEPT !.p = r.p], rest \o FromP(r.out), out, now)
         [] x.o = "up_data" ->     \* Gateway.data_received -> EZSP.frame_received
-             LET r == FrameSync(s.p, x.pl) IN Pump([s EXCEPT !.p = r.p], rest \o FromP(r.out), out, now)
+             LET r == FrameSync(s.p, x.pl, s.lat) IN Pump([s EXCEPT !.p = r.p], rest \o FromP(r.out), out, now)
         [] x.o = "up_reset" ->    \* Gateway.reset_received / error_received
              LET r == Triage(s.g, x.code) IN Pump([s EXCEPT !.g = r.g], rest \o r.out, out, now)
         [] x.o \in {"failed", "applost"} ->     \* EZSP.enter_failed_state / connection_lost
@@ -204,7 +212,7 @@ SyncPump(s, todo, later, out) ==
     ELSE LET x == Head(todo) rest == Tail(todo) IN
       CASE x.o \in {"write", "cb"} -> SyncPump(s, rest, later, Append(out, x))
         [] x.o = "up_data" ->
-             LET r == FrameSync(s.p, x.pl) IN
+             LET r == FrameSync(s.p, x.pl, s.lat) IN
              SyncPump([s EXCEPT !.p = r.p], rest \o SelectSeq(r.out, LAMBDA o : o.o = "cb"),
                       later \o SelectSeq(r.out, LAMBDA o : o.o # "cb"), out)
         [] x.o = "up_reset" -> LET r == Triage(s.g, x.code) IN SyncPump([s EXCEPT !.g = r.g], rest \o r.out, later, out)
